@@ -43,12 +43,14 @@ impl Prop for C04 {
             if n % 60 == 0 {
                 db = FrontCfg::default_cfg().new_db(Plugins::Default);
             }
-            let case = execs::pick_case(ch, &snippets, 8, 5);
             let cfg = if ch.bool() { FrontCfg::default_cfg() } else { FrontCfg::generate(ch) };
-            let meta = if case.source.len() < 2500 && ch.chance(1, 2) { MetaCfg { linear_gas: false, linear_ap: true } } else { MetaCfg::linear() };
+            let solver_choice = ch.below(6);
+            let sweep_seed: Vec<u32> = (0..40).map(|_| ch.next()).collect();
+            let case = execs::pick_case(ch, &snippets, 8, 5);
+            let meta = if case.source.len() < 2500 && solver_choice % 2 == 0 { MetaCfg { linear_gas: false, linear_ap: true } } else { MetaCfg::linear() };
             let src_hash = hash_str(&case.source);
             let mut sampled = false;
-            execs::drive(cc, ch, &mut db, &case, &cfg, meta, 4, &mut |cc, _c, f, args, gas, r| {
+            execs::drive(cc, &mut Choices::new(sweep_seed.clone()), &mut db, &case, &cfg, meta, 4, &mut |cc, _c, f, args, gas, r| {
                 let (Ok(e), Some(g)) = (r, gas) else { return None };
                 match trace::check_gas(e, g) {
                     None => {
